@@ -192,6 +192,7 @@ func modeRoute(c *Ctx) {
 			corsFn = reflect.ValueOf(cf.Interface())
 		}
 	}
+	overEscape := false
 	serve := func(method, path string, withCreds bool, nfInstalled, specInstalled bool) {
 		tr = &trace{}
 		if hasCORS && corsFn.IsValid() {
@@ -213,6 +214,23 @@ func modeRoute(c *Ctx) {
 			c.SetField(api, "SpecFileHandler", nil)
 		}
 		r := NewRequest(method, path, "", nil, nil)
+		if overEscape {
+			// the same decoded path, but sent with needlessly percent-encoded octets
+			// (net/http then fills URL.RawPath); routing and parsing go by the decoded path
+			var b strings.Builder
+			for i := 0; i < len(path); i++ {
+				ch := path[i]
+				if (ch >= 'a' && ch <= 'z') && i%2 == 1 {
+					fmt.Fprintf(&b, "%%%02X", ch)
+				} else if ch == ' ' {
+					b.WriteString("%20")
+				} else {
+					b.WriteByte(ch)
+				}
+			}
+			r.URL.RawPath = b.String()
+			r.RequestURI = b.String()
+		}
 		if withCreds {
 			c.addAllCredentials(r, "good")
 		}
@@ -400,6 +418,59 @@ func modeRoute(c *Ctx) {
 		for _, m := range ml {
 			serve(m, c.Base+p, false, i%2 == 0, false)
 		}
+	}
+	// percent-encoded request targets: same decoded path, non-empty RawPath
+	overEscape = true
+	for i, p := range paths {
+		if i%6 == 0 {
+			for _, m := range ml {
+				serve(m, c.Base+p, true, true, false)
+			}
+		}
+	}
+	for _, op := range c.Ops {
+		serve(op.Method, c.Base+c.canonicalPath(op), true, true, false)
+	}
+	overEscape = false
+	// the stack is replaced on the live API value: later requests must see the new stack
+	if k > 0 {
+		rev := make([]func(http.Handler) http.Handler, 0, k+2)
+		for i := k - 1; i >= 1; i-- {
+			rev = append(rev, mws[i])
+		}
+		c.SetField(api, "Middlewares", rev)
+		origK := k
+		// the trace checker numbers middlewares by their position in the CURRENT stack:
+		// rebuild instrumented middlewares for the new stack
+		var mws2 []func(http.Handler) http.Handler
+		for i := 0; i < origK-1; i++ {
+			i := i
+			mws2 = append(mws2, func(next http.Handler) http.Handler {
+				return http.HandlerFunc(func(w http.ResponseWriter, r *http.Request) {
+					tr.ev = append(tr.ev, fmt.Sprintf("enter%d", i))
+					var sp string
+					var ok bool
+					if fn, has := c.Reg.Funcs["SchemaPath"]; has {
+						outs := reflect.ValueOf(fn).Call([]reflect.Value{reflect.ValueOf(r)})
+						sp, ok = outs[0].String(), outs[1].Bool()
+					}
+					tr.schema = append(tr.schema, fmt.Sprintf("%s|%v", sp, ok))
+					next.ServeHTTP(w, r)
+					tr.ev = append(tr.ev, fmt.Sprintf("leave%d", i))
+				})
+			})
+		}
+		c.SetField(api, "Middlewares", mws2)
+		k = origK - 1
+		for i, p := range paths {
+			if i%4 == 0 {
+				for _, m := range ml {
+					serve(m, c.Base+p, true, true, false)
+				}
+			}
+		}
+		k = origK
+		c.SetField(api, "Middlewares", mws)
 	}
 	// CORS enabled but no handler installed: no pseudo-operations, plain matching
 	if hasCORS {
